@@ -8,12 +8,14 @@
                                Vacant:   OpReserve 1, then the HashMap::entry operation
      E5  rustc_step refines the reference map
      E6  raw_step (from_key) = the HashMap::entry operation; raw_get = OpGetKeyValue up to the
-         is_empty shortcut
+         is_empty shortcut (raw_get_eq needs `items t = 0 -> hash_of k <> None`:
+         raw_get_counterexample)
+     rustc_step_full_table_example: E4 on a concrete full table (growth_left = 0), both backends
    No axioms. *)
 From Coq Require Import ZArith List Bool Lia Permutation.
 From HB Require Import RsPrelude Sse2 Gen Group Raw Map Check AssocSpec ArithFacts WFDefs GroupFacts ProbeFacts
-  IterFacts SafeInsertErase SafeAllocClear FindFacts WFInsertRemove RawOpsSafe RawOpsWF ChurnFacts MapDefs MapStepSafe
-  MapRefineBase MapStepRefine Entry2.
+  IterFacts SafeInsertErase SafeAllocClear FindFacts ResizeFacts WFInsertRemove RawOpsSafe RawOpsWF ChurnFacts MapDefs
+  MapStepSafe AssocFacts MapRefineBase MapStepRefine Entry2.
 Import ListNotations.
 Open Scope nat_scope.
 
@@ -183,3 +185,438 @@ Section NoGrowWF.
     rewrite Eins in E. cbn [bind] in E. injection E as <- _. exact HWF2.
   Qed.
 End NoGrowWF.
+
+(* ------------------------------------------------------------------------------------------ *)
+(* E4: rustc_step against map_step                                                              *)
+(* ------------------------------------------------------------------------------------------ *)
+(* `OpReserve 1`, then `op` in the state the reserve left, the event lists concatenated; an
+   unwinding reserve ends the composition with its own result *)
+Definition reserve_then (B : backend) (tsize talign : Z) (needs_drop guard_fix : bool)
+           (hash_of : Z -> option Z) (alloc_refuses : bool) (t : table kv) (op : map_op) : res Map.result :=
+  '(t1, o1, evs1) <- map_step B tsize talign needs_drop guard_fix hash_of alloc_refuses t (OpReserve 1) ;;
+  if is_unwind o1 then Ok (t1, o1, evs1) else
+  '(t2, o2, evs2) <- map_step B tsize talign needs_drop guard_fix hash_of alloc_refuses t1 op ;;
+  Ok (t2, o2, evs1 ++ evs2).
+
+(* the Occupied arm, and the arms where nothing is found because the hasher panicked or a checked
+   primitive failed: a pure program equality, NO invariant, any guard_fix *)
+Section RustcOccupied.
+  Variable B : backend.
+  Variable tsize talign : Z.
+  Variable needs_drop guard_fix : bool.
+  Variable hash_of : Z -> option Z.
+  Variable alloc_refuses : bool.
+
+  Local Notation STEP := (map_step B tsize talign needs_drop guard_fix hash_of alloc_refuses).
+  Local Notation RUSTC := (rustc_step B tsize talign needs_drop guard_fix hash_of alloc_refuses).
+
+  Lemma rustc_step_not_vacant_eq (t : table kv) k stamp a :
+    (forall hv, hash_of k = Some hv -> find B kv t hv (eq_key k) <> Ok None) ->
+    RUSTC t k stamp a = STEP t (entry_op_of k stamp a).
+  Proof.
+    intros Hnv. unfold rustc_step.
+    destruct a; cbn [entry_op_of map_step]; unfold m_entry, with_hash;
+      (destruct (hash_of k) as [hv|] eqn:Hh; [|reflexivity]);
+      (destruct (find B kv t hv (eq_key k)) as [[i|]|er] eqn:Ef; cbn [bind];
+       [|exfalso; exact (Hnv hv eq_refl Ef)|reflexivity]);
+      (destruct (slot_ref kv t i) as [e|er]; cbn [bind rustc_occupied]; reflexivity).
+  Qed.
+
+  Lemma rustc_step_occupied_eq (t : table kv) k stamp a hv i :
+    hash_of k = Some hv -> find B kv t hv (eq_key k) = Ok (Some i) ->
+    RUSTC t k stamp a = STEP t (entry_op_of k stamp a).
+  Proof.
+    intros Hh Ef. apply rustc_step_not_vacant_eq. intros hv' Hh'. rewrite Hh in Hh'. injection Hh' as <-.
+    rewrite Ef. discriminate.
+  Qed.
+End RustcOccupied.
+
+Section RustcEq.
+  Variable B : backend.
+  Hypothesis HW : WidthOK B.
+  Hypothesis HB : BackendSpec B.
+  Variable tsize talign : Z.
+  Hypothesis HL : LayoutOK tsize talign.
+  Variable needs_drop : bool.
+  Variable hash_of : Z -> option Z.
+  Hypothesis Htot : TotalHash hash_of.
+  Variable alloc_refuses : bool.
+
+  Let Hts : (0 <= tsize < 2 ^ 64)%Z := proj1 HL.
+  Let Hta : exists a : Z, (0 <= a <= 62)%Z /\ talign = (2 ^ a)%Z := proj2 HL.
+
+  Local Notation h := (hasher hash_of).
+  Local Notation OWN := (TOwn B kv tsize talign).
+  Local Notation INV := (Inv B tsize talign hash_of).
+  Local Notation STEP := (map_step B tsize talign needs_drop true hash_of alloc_refuses).
+  Local Notation RUSTC := (rustc_step B tsize talign needs_drop true hash_of alloc_refuses).
+  Local Notation THEN := (reserve_then B tsize talign needs_drop true hash_of alloc_refuses).
+  Local Notation keyP k := (fun e : kv => (k_id e =? k)%Z).
+
+  (* a probe that finds nothing: no occupant has the key (WF: an occupant is never missed) *)
+  Lemma find_None_no_occupant t k hv : WF B kv h t -> hash_of k = Some hv ->
+    find B kv t hv (eq_key k) = Ok None ->
+    forall e, In e (occupants kv t) -> (k_id e =? k)%Z = false.
+  Proof.
+    intros HWF Hh Ef e Hin. pose proof HWF as (Hs & _).
+    destruct (Nat.eq_dec (mask t) 0) as [Hm|Hm].
+    - rewrite (safe_singleton B kv t Hs Hm), new_table_occupants in Hin. destruct Hin.
+    - destruct (k_id e =? k)%Z eqn:Ek; [exfalso|reflexivity].
+      apply occupants_In in Hin. destruct Hin as (i & Hi & He).
+      rewrite (SafeWF_slots_length B kv t Hs) in Hi.
+      change (eq_key k) with (pure_eq (keyP k)) in Ef.
+      destruct (find_complete B kv HW HB t Hm (keyP k) hv h i e HWF Hi He (keyP_hash hash_of k hv Hh e Ek) Ek)
+        as (i' & e' & C & _). rewrite Ef in C. discriminate C.
+  Qed.
+
+  (* ... and conversely (SafeWF is enough) *)
+  Lemma no_occupant_find_None t k hv : SafeWF B kv t ->
+    (forall e, In e (occupants kv t) -> (k_id e =? k)%Z = false) ->
+    find B kv t hv (eq_key k) = Ok None.
+  Proof.
+    intros Hs Hno. destruct (Nat.eq_dec (mask t) 0) as [Hm|Hm].
+    - rewrite (safe_singleton B kv t Hs Hm). apply (find_new_table B HW HB).
+    - change (eq_key k) with (pure_eq (keyP k)).
+      apply (find_absent B kv HW HB t Hm (keyP k) hv Hs). intros i e He. apply Hno.
+      apply occupants_In. exists i. split; [exact (nth_Some_lt (slots t) i e He)|exact He].
+  Qed.
+
+  (* reserve keeps the occupants, hence the answer "absent" *)
+  Lemma find_None_after_reserve t k hv n t1 evs1 tr1 unw1 : WF B kv h t -> OWN t -> (0 <= n < 2 ^ 64)%Z ->
+    hash_of k = Some hv -> find B kv t hv (eq_key k) = Ok None ->
+    reserve B kv tsize talign needs_drop h true t n alloc_refuses = Ok (t1, evs1, tr1, unw1) ->
+    find B kv t1 hv (eq_key k) = Ok None.
+  Proof.
+    intros HWF HA Hn Hh Ef Er.
+    destruct (reserve_WF B kv HW HB tsize talign Hts Hta needs_drop h (h_total hash_of Htot) t n alloc_refuses
+                t1 evs1 tr1 unw1 HWF HA Hn Er) as (_ & _ & (Hs1 & _) & _ & P & _).
+    apply (no_occupant_find_None t1 k hv Hs1). intros e Hin.
+    exact (find_None_no_occupant t k hv HWF Hh Ef e (Permutation_in e P Hin)).
+  Qed.
+
+  (* the Vacant arm *)
+  Lemma rustc_step_vacant_eq t k stamp a hv : WF B kv h t -> OWN t ->
+    hash_of k = Some hv -> find B kv t hv (eq_key k) = Ok None ->
+    RUSTC t k stamp a = THEN t (entry_op_of k stamp a).
+  Proof.
+    intros HWF HA Hh Ef. unfold rustc_step, reserve_then, with_hash. rewrite Hh, Ef. cbn [bind map_step].
+    assert (H1 : (0 <= 1 < 2 ^ 64)%Z) by (split; [lia|reflexivity]).
+    destruct (reserve B kv tsize talign needs_drop h true t 1 alloc_refuses)
+      as [[[[t1 evs1] tr1] unw1]|er] eqn:Er; cbn [bind]; [|reflexivity].
+    pose proof (find_None_after_reserve t k hv 1%Z t1 evs1 tr1 unw1 HWF HA H1 Hh Ef Er) as Ef1.
+    destruct (reserve_WF B kv HW HB tsize talign Hts Hta needs_drop h (h_total hash_of Htot) t 1%Z alloc_refuses
+                t1 evs1 tr1 unw1 HWF HA H1 Er) as (-> & -> & (Hs1 & _) & HA1 & _ & _ & Hg & _).
+    cbn [tr_out]. cbn [bind is_unwind].
+    destruct a as [v|v| |]; cbn [entry_op_of map_step rustc_vacant]; unfold m_entry, with_hash;
+      rewrite Hh, Ef1; cbn [bind].
+    - unfold vacant_insert.
+      destruct (insert_no_grow_spec B kv HW HB tsize talign needs_drop h t1 hv (mkKV k stamp v) alloc_refuses
+                  Hs1 HA1 (or_introl Hg)) as (t2 & i & Eng & Eins & _).
+      rewrite Eng, Eins. cbn [bind]. rewrite app_nil_r. reflexivity.
+    - unfold vacant_insert.
+      destruct (insert_no_grow_spec B kv HW HB tsize talign needs_drop h t1 hv (mkKV k stamp v) alloc_refuses
+                  Hs1 HA1 (or_introl Hg)) as (t2 & i & Eng & Eins & _).
+      rewrite Eng, Eins. cbn [bind]. rewrite app_nil_r. reflexivity.
+    - rewrite app_nil_r. reflexivity.
+    - rewrite app_nil_r. reflexivity.
+  Qed.
+
+  (* E4 *)
+  Theorem rustc_step_eq t k stamp a hv : WF B kv h t -> OWN t -> hash_of k = Some hv ->
+    RUSTC t k stamp a =
+    match find B kv t hv (eq_key k) with
+    | Ok (Some _) => STEP t (entry_op_of k stamp a)
+    | Ok None => THEN t (entry_op_of k stamp a)
+    | Fail er => Fail er
+    end.
+  Proof.
+    intros HWF HA Hh. destruct (find B kv t hv (eq_key k)) as [[i|]|er] eqn:Ef.
+    - exact (rustc_step_occupied_eq B tsize talign needs_drop true hash_of alloc_refuses t k stamp a hv i Hh Ef).
+    - exact (rustc_step_vacant_eq t k stamp a hv HWF HA Hh Ef).
+    - unfold rustc_step, with_hash. rewrite Hh, Ef. reflexivity.
+  Qed.
+End RustcEq.
+
+(* the Vacant arm when the action inserts nothing (drop the entry / remove_entry on a Vacant entry):
+   the reserve(1) of rustc_entry has happened all the same -- a pure program equality *)
+Section RustcVacantNoInsert.
+  Variable B : backend.
+  Variable tsize talign : Z.
+  Variable needs_drop guard_fix : bool.
+  Variable hash_of : Z -> option Z.
+  Variable alloc_refuses : bool.
+
+  Local Notation STEP := (map_step B tsize talign needs_drop guard_fix hash_of alloc_refuses).
+  Local Notation RUSTC := (rustc_step B tsize talign needs_drop guard_fix hash_of alloc_refuses).
+
+  Lemma rustc_step_vacant_noinsert_eq (t : table kv) k stamp a hv :
+    hash_of k = Some hv -> find B kv t hv (eq_key k) = Ok None ->
+    match a with ActDrop | ActRemoveEntry => True | _ => False end ->
+    RUSTC t k stamp a =
+    ('(t1, o1, evs1) <- STEP t (OpReserve 1) ;;
+     if is_unwind o1 then Ok (t1, o1, evs1)
+     else Ok (t1, match a with ActDrop => OutBool false | _ => OutNone end, evs1)).
+  Proof.
+    intros Hh Ef Ha. unfold rustc_step, with_hash. rewrite Hh, Ef. cbn [bind map_step].
+    destruct (reserve B kv tsize talign needs_drop (hasher hash_of) guard_fix t 1 alloc_refuses)
+      as [[[[t1 evs1] tr1] unw1]|er]; cbn [bind]; [|reflexivity].
+    cbn [tr_out]. destruct unw1; cbn [bind is_unwind unwind]; [reflexivity|].
+    destruct a; try contradiction; reflexivity.
+  Qed.
+End RustcVacantNoInsert.
+
+(* ------------------------------------------------------------------------------------------ *)
+(* E5: rustc_step refines the reference map                                                     *)
+(* ------------------------------------------------------------------------------------------ *)
+Section RustcRefines.
+  Variable B : backend.
+  Hypothesis HW : WidthOK B.
+  Hypothesis HB : BackendSpec B.
+  Variable tsize talign : Z.
+  Hypothesis HL : LayoutOK tsize talign.
+  Variable needs_drop : bool.
+  Variable hash_of : Z -> option Z.
+  Hypothesis Htot : TotalHash hash_of.
+  Variable alloc_refuses : bool.
+
+  Local Notation h := (hasher hash_of).
+  Local Notation INV := (Inv B tsize talign hash_of).
+  Local Notation STEP := (map_step B tsize talign needs_drop true hash_of alloc_refuses).
+  Local Notation RUSTC := (rustc_step B tsize talign needs_drop true hash_of alloc_refuses).
+
+  Lemma entry_op_args_ok k stamp a : op_args_ok (entry_op_of k stamp a).
+  Proof. destruct a; exact I. Qed.
+
+  Lemma entry_op_pre s k stamp a : op_pre s (entry_op_of k stamp a).
+  Proof. destruct a; exact I. Qed.
+
+  (* the reference accepts `OpReserve n` only with OutUnit, and leaves the contents alone *)
+  Lemma spec_reserve_same s n o s' : spec_accepts s (OpReserve n) o = Some s' -> s' = s.
+  Proof.
+    cbn [spec_accepts]. unfold expect. destruct (out_eqb o OutUnit); [|discriminate].
+    intros E. injection E as <-. reflexivity.
+  Qed.
+
+  Theorem rustc_step_refines_inv t s k stamp a t' o evs : INV t s ->
+    RUSTC t k stamp a = Ok (t', o, evs) ->
+    is_unwind o = false /\ exists s', spec_accepts s (entry_op_of k stamp a) o = Some s' /\ INV t' s'.
+  Proof.
+    intros HI E. pose proof HI as (HWF & HA & _). destruct (Htot k) as (hv & Hh).
+    rewrite (rustc_step_eq B HW HB tsize talign HL needs_drop hash_of Htot alloc_refuses t k stamp a hv HWF HA Hh) in E.
+    destruct (find B kv t hv (eq_key k)) as [[i|]|er] eqn:Ef; [| |discriminate E].
+    - (* Occupied: the HashMap::entry operation itself *)
+      exact (map_step_refines_inv B HW HB tsize talign HL needs_drop hash_of Htot alloc_refuses t s
+               (entry_op_of k stamp a) t' o evs (entry_op_args_ok k stamp a) (entry_op_pre s k stamp a) HI E).
+    - (* Vacant: OpReserve 1 (accepted, contents unchanged), then the HashMap::entry operation *)
+      unfold reserve_then in E.
+      destruct (STEP t (OpReserve 1)) as [[[t1 o1] evs1]|er] eqn:E1; cbn [bind] in E; [|discriminate E].
+      assert (H1 : (0 <= 1 < 2 ^ 64)%Z) by (split; [lia|reflexivity]).
+      destruct (ref_reserve B HW HB tsize talign HL needs_drop hash_of Htot alloc_refuses t s 1%Z t1 o1 evs1 HI H1 E1)
+        as (Hu1 & s1 & Es1 & HI1).
+      rewrite Hu1 in E. rewrite (spec_reserve_same s 1%Z o1 s1 Es1) in HI1.
+      destruct (STEP t1 (entry_op_of k stamp a)) as [[[t2 o2] evs2]|er] eqn:E2; cbn [bind] in E; [|discriminate E].
+      injection E as <- <- <-.
+      exact (map_step_refines_inv B HW HB tsize talign HL needs_drop hash_of Htot alloc_refuses t1 s
+               (entry_op_of k stamp a) t2 o2 evs2 (entry_op_args_ok k stamp a) (entry_op_pre s k stamp a) HI1 E2).
+  Qed.
+End RustcRefines.
+
+(* E5 in closed form *)
+Theorem rustc_step_refines :
+  forall B tsize talign needs_drop hash_of alloc_refuses (t : table kv) (s : spec) k stamp a t' o evs,
+  WidthOK B -> BackendSpec B -> LayoutOK tsize talign -> TotalHash hash_of ->
+  WF B kv (fun e => hash_of (k_id e)) t -> TOwn B kv tsize talign t -> AbsRel t s ->
+  rustc_step B tsize talign needs_drop true hash_of alloc_refuses t k stamp a = Ok (t', o, evs) ->
+  is_unwind o = false /\
+  exists s', spec_accepts s (entry_op_of k stamp a) o = Some s' /\
+             WF B kv (fun e => hash_of (k_id e)) t' /\ TOwn B kv tsize talign t' /\ AbsRel t' s'.
+Proof.
+  intros B tsize talign needs_drop hash_of alloc_refuses t s k stamp a t' o evs HW HB HL Htot HWF HA HR E.
+  exact (rustc_step_refines_inv B HW HB tsize talign HL needs_drop hash_of Htot alloc_refuses t s k stamp a t' o evs
+           (conj HWF (conj HA HR)) E).
+Qed.
+
+(* the only failures of rustc_step from a valid state are the two documented library panics of
+   the infallible reserve (capacity overflow, allocation failure) *)
+Theorem rustc_step_fail_benign :
+  forall B tsize talign needs_drop hash_of alloc_refuses (t : table kv) k stamp a er,
+  WidthOK B -> BackendSpec B -> LayoutOK tsize talign -> TotalHash hash_of ->
+  WF B kv (fun e => hash_of (k_id e)) t -> TOwn B kv tsize talign t ->
+  rustc_step B tsize talign needs_drop true hash_of alloc_refuses t k stamp a = Fail er -> benign er.
+Proof.
+  intros B tsize talign needs_drop hash_of alloc_refuses t k stamp a er HW HB HL Htot HWF HA E.
+  destruct (Htot k) as (hv & Hh). pose proof HWF as (Hs & _).
+  rewrite (rustc_step_eq B HW HB tsize talign HL needs_drop hash_of Htot alloc_refuses t k stamp a hv HWF HA Hh) in E.
+  pose proof (map_step_safe B tsize talign needs_drop hash_of alloc_refuses t (entry_op_of k stamp a) HW HB HL
+                (entry_op_args_ok k stamp a) Hs HA) as Hsafe.
+  assert (H1 : op_args_ok (OpReserve 1)) by (split; [lia|reflexivity]).
+  pose proof (map_step_safe B tsize talign needs_drop hash_of alloc_refuses t (OpReserve 1) HW HB HL H1 Hs HA) as Hres.
+  destruct (find B kv t hv (eq_key k)) as [[i|]|er0] eqn:Ef.
+  - rewrite E in Hsafe. exact Hsafe.
+  - unfold reserve_then in E.
+    destruct (map_step B tsize talign needs_drop true hash_of alloc_refuses t (OpReserve 1))
+      as [[[t1 o1] evs1]|er1]; cbn [bind] in E.
+    + destruct Hres as (Hs1 & HA1). destruct (is_unwind o1); [discriminate E|].
+      pose proof (map_step_safe B tsize talign needs_drop hash_of alloc_refuses t1 (entry_op_of k stamp a) HW HB HL
+                    (entry_op_args_ok k stamp a) Hs1 HA1) as Hsafe1.
+      destruct (map_step B tsize talign needs_drop true hash_of alloc_refuses t1 (entry_op_of k stamp a))
+        as [[[t2 o2] evs2]|er2]; cbn [bind] in E; [discriminate E|].
+      injection E as <-. exact Hsafe1.
+    + injection E as <-. exact Hres.
+  - exfalso. destruct (Nat.eq_dec (mask t) 0) as [Hm|Hm].
+    + rewrite (safe_singleton B kv t Hs Hm), (find_new_table B HW HB) in Ef. discriminate Ef.
+    + change (eq_key k) with (pure_eq (fun e : kv => (k_id e =? k)%Z)) in Ef.
+      destruct (find_total B kv HW HB t Hm (fun e : kv => (k_id e =? k)%Z) hv Hs) as (r & C).
+      rewrite Ef in C. discriminate C.
+Qed.
+
+(* ------------------------------------------------------------------------------------------ *)
+(* E6: the raw entry builders -- pure program equalities, NO invariant, any hasher             *)
+(* ------------------------------------------------------------------------------------------ *)
+Section RawEq.
+  Variable B : backend.
+  Variable tsize talign : Z.
+  Variable needs_drop guard_fix : bool.
+  Variable hash_of : Z -> option Z.
+  Variable alloc_refuses : bool.
+
+  Local Notation STEP := (map_step B tsize talign needs_drop guard_fix hash_of alloc_refuses).
+  Local Notation RAW := (raw_step B tsize talign needs_drop guard_fix hash_of alloc_refuses).
+  Local Notation RAWH := (raw_step_hashed B tsize talign needs_drop guard_fix hash_of alloc_refuses).
+
+  (* from_key_hashed_nocheck with the hash the map's hasher gives the key *)
+  Lemma raw_step_hashed_eq (t : table kv) k a hv : raw_act_key_is k a -> hash_of k = Some hv ->
+    RAWH t hv k a = STEP t (raw_op_of k a).
+  Proof.
+    intros Hk Hh. unfold raw_step_hashed.
+    destruct a as [ik st v|ik st v| |]; cbn [raw_act_key_is] in Hk; try subst ik;
+      cbn [raw_op_of map_step]; unfold m_entry, with_hash; rewrite Hh;
+      (destruct (find B kv t hv (eq_key k)) as [[i|]|er]; cbn [bind]; [| |reflexivity]);
+      try (destruct (slot_ref kv t i) as [e|er]; cbn [bind raw_occupied]; reflexivity);
+      cbn [raw_vacant]; unfold raw_vacant_insert, with_hash; rewrite ?Hh; reflexivity.
+  Qed.
+
+  (* from_key: the second hasher call of RawVacantEntryMut::insert is on the same key, the hasher
+     is a function: it returns the same hash *)
+  Theorem raw_step_eq (t : table kv) k a : raw_act_key_is k a -> RAW t k a = STEP t (raw_op_of k a).
+  Proof.
+    intros Hk. unfold raw_step. unfold with_hash at 1.
+    destruct (hash_of k) as [hv|] eqn:Hh.
+    - exact (raw_step_hashed_eq t k a hv Hk Hh).
+    - destruct a; cbn [raw_op_of map_step]; unfold m_entry, with_hash; rewrite Hh; reflexivity.
+  Qed.
+
+  (* raw_entry().from_key(&k) = get_key_value(&k) on a non-empty map *)
+  Theorem raw_get_eq_nonempty (t : table kv) k : items t <> 0%Z ->
+    raw_get B hash_of t k = STEP t (OpGetKeyValue k).
+  Proof.
+    intros Hnz. cbn [map_step]. unfold raw_get, raw_get_hashed, get_inner, with_hash.
+    destruct (Z.eqb_spec (items t) 0) as [C|_]; [contradiction|].
+    destruct (hash_of k) as [hv|]; [|reflexivity].
+    destruct (find B kv t hv (eq_key k)) as [[i|]|er]; reflexivity.
+  Qed.
+End RawEq.
+
+Section RawGetEmpty.
+  Variable B : backend.
+  Hypothesis HW : WidthOK B.
+  Hypothesis HB : BackendSpec B.
+  Variable tsize talign : Z.
+  Variable needs_drop guard_fix : bool.
+  Variable hash_of : Z -> option Z.
+  Variable alloc_refuses : bool.
+
+  Local Notation STEP := (map_step B tsize talign needs_drop guard_fix hash_of alloc_refuses).
+
+  (* on an empty map HashMap::get_key_value answers None without hashing (is_empty shortcut);
+     raw_entry().from_key hashes, probes and finds nothing: the same result when the hasher does
+     not panic on k *)
+  Theorem raw_get_eq_empty (t : table kv) k : SafeWF B kv t -> items t = 0%Z -> hash_of k <> None ->
+    raw_get B hash_of t k = Ok (t, OutNone, []) /\ STEP t (OpGetKeyValue k) = Ok (t, OutNone, []).
+  Proof.
+    intros Hs Hi Hh. split.
+    - unfold raw_get, raw_get_hashed, with_hash. destruct (hash_of k) as [hv|]; [|contradiction].
+      assert (Ef : find B kv t hv (eq_key k) = Ok None).
+      { destruct (Nat.eq_dec (mask t) 0) as [Hm|Hm].
+        - rewrite (safe_singleton B kv t Hs Hm). apply (find_new_table B HW HB).
+        - change (eq_key k) with (pure_eq (fun e : kv => (k_id e =? k)%Z)).
+          apply (find_absent B kv HW HB t Hm _ hv Hs). intros i e He. exfalso.
+          assert (Hin : In e (occupants kv t)).
+          { apply occupants_In. exists i. split; [exact (nth_Some_lt (slots t) i e He)|exact He]. }
+          rewrite (occupants_items0 B kv HW t Hs Hi) in Hin. destruct Hin. }
+      rewrite Ef. reflexivity.
+    - cbn [map_step]. unfold get_inner. rewrite Hi. reflexivity.
+  Qed.
+
+  Theorem raw_get_eq (t : table kv) k : SafeWF B kv t -> (items t = 0%Z -> hash_of k <> None) ->
+    raw_get B hash_of t k = STEP t (OpGetKeyValue k).
+  Proof.
+    intros Hs Hh. destruct (Z.eq_dec (items t) 0) as [Hi|Hnz].
+    - destruct (raw_get_eq_empty t k Hs Hi (Hh Hi)) as (-> & ->). reflexivity.
+    - exact (raw_get_eq_nonempty B tsize talign needs_drop guard_fix hash_of alloc_refuses t k Hnz).
+  Qed.
+End RawGetEmpty.
+
+(* the side condition of raw_get_eq is needed: on the empty map, with a hasher that panics,
+   get_key_value answers None (it never hashes) while raw_entry().from_key(&k) unwinds *)
+Theorem raw_get_counterexample :
+  let t := new_table sse2_backend kv in
+  let hash_of := fun _ : Z => @None Z in
+  SafeWF sse2_backend kv t /\ items t = 0%Z /\
+  raw_get sse2_backend hash_of t 1%Z = Ok (t, OutUnwind, []) /\
+  map_step sse2_backend 24 8 false true hash_of false t (OpGetKeyValue 1%Z) = Ok (t, OutNone, []).
+Proof.
+  cbv zeta. split; [apply new_table_safe|]. split; [reflexivity|]. split; vm_compute; reflexivity.
+Qed.
+
+(* ------------------------------------------------------------------------------------------ *)
+(* non-vacuity: a full table (growth_left = 0), an absent key                                   *)
+(* ------------------------------------------------------------------------------------------ *)
+Definition ex_hash (k : Z) : option Z := Some (k * 1000003)%Z.
+
+Fixpoint ex_run (B : backend) (t : table kv) (ops : list map_op) : table kv :=
+  match ops with
+  | [] => t
+  | op :: r => match map_step B 24 8 false true ex_hash false t op with
+               | Ok (t1, _, _) => ex_run B t1 r
+               | Fail _ => t
+               end
+  end.
+
+(* three inserts into HashMap::new(): 4 buckets, capacity 3, 3 items *)
+Definition ex_full (B : backend) : table kv :=
+  ex_run B (new_table B kv) [OpInsert 1 0 10; OpInsert 2 0 20; OpInsert 3 0 30].
+
+Example ex_full_is_full :
+  (mask (ex_full sse2_backend) = 3 /\ items (ex_full sse2_backend) = 3%Z /\ growth_left (ex_full sse2_backend) = 0%Z) /\
+  (mask (ex_full generic_backend) = 3 /\ items (ex_full generic_backend) = 3%Z /\ growth_left (ex_full generic_backend) = 0%Z).
+Proof. vm_compute. repeat split. Qed.
+
+(* rustc_entry(4).or_insert(40) on it: the reserve(1) of rustc_entry resizes to 8 buckets, then
+   insert_no_grow; the same table, output and events as `reserve(1); entry(4).or_insert(40)` *)
+Example rustc_step_full_table_example :
+  forall B, B = sse2_backend \/ B = generic_backend ->
+  rustc_step B 24 8 false true ex_hash false (ex_full B) 4 7 (ActOrInsert 40) =
+  reserve_then B 24 8 false true ex_hash false (ex_full B) (OpEntryOrInsert 4 7 40) /\
+  exists t' evs,
+    rustc_step B 24 8 false true ex_hash false (ex_full B) 4 7 (ActOrInsert 40) = Ok (t', OutVal 40, evs) /\
+    mask t' = 7 /\ items t' = 4%Z /\ growth_left t' = 3%Z /\ evs <> [] /\
+    map_step B 24 8 false true ex_hash false t' (OpGetKeyValue 4) = Ok (t', OutKV 7 40, []).
+Proof.
+  intros B [-> | ->].
+  - split; [vm_compute; reflexivity|]. eexists. eexists.
+    split; [vm_compute; reflexivity|]. vm_compute. repeat split. discriminate.
+  - split; [vm_compute; reflexivity|]. eexists. eexists.
+    split; [vm_compute; reflexivity|]. vm_compute. repeat split. discriminate.
+Qed.
+
+Print Assumptions insert_no_grow_spec.
+Print Assumptions insert_no_grow_WF.
+Print Assumptions rustc_step_eq.
+Print Assumptions rustc_step_vacant_noinsert_eq.
+Print Assumptions rustc_step_refines.
+Print Assumptions rustc_step_fail_benign.
+Print Assumptions raw_step_eq.
+Print Assumptions raw_get_eq.
+Print Assumptions raw_get_counterexample.
+Print Assumptions rustc_step_full_table_example.
